@@ -9,7 +9,7 @@ EXPLANATION = ('Static rules: P-a the source of a ConnectableObservable is subsc
                'ShareOp::new); P-b connect(self) consumes the connectable (no Clone impl) and in ShareOp*::actual_subscribe it is reachable '
                'only after the state was replaced by Connected, all under the ShareOp cell guard, so the source is subscribed exactly once '
                'also with racing first subscribers; P-c the last leaver is no longer counted when RefCountSubscription asks '
-               'is_empty() (either the subject size counts live publishers only, or retain() runs first), so the source is released; P-d the subject size covers both the live and the waiting list; P-f Publisher::p_is_closed counts a subscriber as gone when its observer finished by itself OR it was unsubscribed (both consulted); P-e the inner subject multicasts every notification to every present subscriber (same rules as C06.J1/J2/J3/J4/J6). '
+               'is_empty() (either the subject size counts live publishers only, or retain() runs first), so the source is released; P-d the subject size covers both the live and the waiting list; P-g ShareOp::actual_subscribe unsubscribes nothing (only the returned RefCountSubscription tears the share down: a join never does); P-f Publisher::p_is_closed counts a subscriber as gone when its observer finished by itself OR it was unsubscribed (both consulted); P-e the inner subject multicasts every notification to every present subscriber (same rules as C06.J1/J2/J3/J4/J6). '
                'Does not decide join/leave histories beyond these rules; multicast itself is C06.')
 ASSUMPTIONS = []
 
@@ -99,7 +99,33 @@ def _check_own(cx):
                            ('first-subscriber hand-over broken: ' + (bad[0] if bad else 'connect()/subscribe not under the ShareOp cell guard')), fn['span'], bad[1] if bad else None))
     if m < 2:
         res.append(Finding(ID, 'P-b', 'floor', False, 'ShareOp impls not found'))
-    return res + pc(cx) + pe(cx) + pf(cx)
+    return res + pc(cx) + pe(cx) + pf(cx) + pg(cx)
+
+
+def pg(cx):
+    """joining a share never tears it down: the only place that unsubscribes the inner subject of share() is the returned
+    RefCountSubscription (when its own subscriber left and nobody else is there); ShareOp::actual_subscribe itself makes no
+    unsubscribe call. `is_empty()` is also true for a connected share whose subscribers all finished by themselves (take(n)):
+    a teardown at join time would hand the newcomer a closed subscription while the source is still emitting."""
+    F = cx.facts
+    res = []
+    m = 0
+    for im in F.impls_of('observable::Observable'):
+        tag = roles.impl_tag(cx, im)
+        if tag not in ('ops::ref_count::ShareOp', 'ops::ref_count::ShareOpThreads'):
+            continue
+        m += 1
+        fn = F.impl_fn(im, 'actual_subscribe')
+        g = cx.graph(fn['key'])
+        bad = [x for x in g.nodes if x['kind'] in ('call', 'enter') and x['name'] in UNSUB_NAMES and not x['ctx']]
+        res.append(Finding(ID, 'P-g', cx.label(fn), not bad,
+                           'subscribing to a share unsubscribes nothing' if not bad else
+                           'subscribing to a share unsubscribes %s: a share that is connected but momentarily without live subscribers is torn down by the next join, the newcomer misses every later emission' % (
+                               recv_class(bad[0]['args'][0]) if bad[0]['args'] else 'something'),
+                           g.loc(bad[0]) if bad else fn['span'], [node_desc(g, x) for x in bad]))
+    if m < 2:
+        res.append(Finding(ID, 'P-g', 'floor', False, 'ShareOp impls not found'))
+    return res
 
 
 def pf(cx):
